@@ -47,6 +47,9 @@ func (r *Repository) Prune(opt PruneOptions) error {
 	if err != nil {
 		return err
 	}
+	if err := pw.walkIndex(); err != nil {
+		return err
+	}
 	// Now walk all (loose) objects in storage.
 	return los.ForEachObjectHash(func(hash plumbing.Hash) error {
 		// Get out if we have seen this object.
